@@ -1,5 +1,7 @@
 """C17 — every reported position designates the right place in the source."""
 from checks.common import replay, tlc_emit
+from checks import c06, machine
+from lib import gen
 
 LEVEL = "model_checking"
 
@@ -19,8 +21,17 @@ def run(ck):
     res, rows = tlc_emit(ck, "ErrChain", cfg, "ErrChain(MaxOps=%d)" % m)
     replay(ck, "replay-errchain", rows, "errchain")
     ck.cov["traces_validated_against_impl"] = ck.cov.get("traces_validated_against_impl", 0) + len(rows)
-    ck.cov["exhaustive"] = True
-    ck.cov["rule"] = ("every state of the TLC-explored scanning machine (all texts <= MaxSyms symbols over "
+    # (b) every position field of every node = the offset of the token the Syntax spec designates, in every layout
+    c06.run_syntax(ck, "tree-positions")
+    # (c) run-time error positions: script name + a position inside the statement at fault, for every chain entry
+    progs = [p for p in gen.gen_use(q, ck.seed) if ":fail" in p["id"]]
+    progs += [p for p in gen.gen_hostile(True, ck.seed)][: (300 if q else 3000)]
+    machine.run_family(ck, "error-positions", progs)
+    ck.cov["exhaustive"] = False
+    ck.cov["rule"] = ("(a,d) every state of the TLC-explored scanning machine (all texts <= MaxSyms symbols over "
                       "{a,\\n,2-byte,3-byte rune} x every offset -1..len+1) and every behaviour of the ErrChain "
-                      "machine is one call sequence into the real code; distinct = distinct texts / op sequences")
+                      "machine is one call sequence into the real code; (b) every tree of the Syntax spec in several layouts: each position "
+                      "field must be the offset of the token the spec designates, with consistent line/column; (c) programs with a "
+                      "run-time fault at every position of a use() call tree and hostile atoms: every chain entry names the right "
+                      "script and lies inside the statement at fault. distinct = distinct texts / op sequences / trees / programs")
     ck.assumptions += ["TLC/SANY 1.8.0 and CommunityModules Json are trusted", "bounds: see rule"]
